@@ -42,7 +42,7 @@ class C20(PropBase):
         return []
 
     def n_random(self, tier):
-        return 150 if tier == 'quick' else 3000
+        return 150 if tier == 'quick' else 8000
 
     def random_cases(self, rnd, n):
         for _ in range(n):
